@@ -4,6 +4,7 @@ Executed for real: AggActiveSet.__call__, AggScaling.__call__, Aggregation._resp
 PNorm/KSFunction/SoftMinMax.aggregation_function.
 """
 import math
+import warnings
 import numpy as np
 import z3
 
@@ -27,7 +28,7 @@ ITEM_TIMEOUT = {"quick": 150, "thorough": 900}
 
 
 def VIEWS_LAYOUT_ITEMS(it, tier):
-    return it["id"] != "activeset-n3-both"      # (two minutes on its own)
+    return it["id"] != "activeset-n3-both" and it["kind"] != "range-concrete"      # (two minutes on its own)
 
 
 def items(tier):
@@ -59,6 +60,11 @@ def items(tier):
         for p in b["pnorm_p"]:
             out.append(dict(kind="bound-pnorm", id="bound-pnorm-n%d-p%d" % (n, p), n=n, p=p))
         if n == 2:
+            # concrete regression items: wide spreads / large magnitudes for which the defining formula is representable
+            for nm, agg, par, xs in [("ks-min-wide", "KS", -1.0, [0.001, 900.0, 3.0]), ("ks-max-wide", "KS", 1.0, [-900.0, -0.5, -3.0]),
+                                     ("ks-min-large", "KS", -2.0, [250.0, 300.0]), ("softmin-wide", "SoftMinMax", -1.0, [0.5, 800.0]),
+                                     ("softmax-wide", "SoftMinMax", 1.0, [-800.0, -0.5]), ("pnorm-large", "PNorm", 4.0, [1e60, 2e60])]:
+                out.append(dict(kind="range-concrete", id="range-concrete-%s" % nm, agg=agg, par=par, x=xs))
             out.append(dict(kind="bound-softminmax", id="bound-softminmax-n2-pos-param-changed", n=n, sgn=+1, param_changed=True))
             out.append(dict(kind="bound-ks", id="bound-ks-n2-neg-param-changed", n=n, sgn=-1, param_changed=True))
             for p in b["pnorm_p"][:2]:
@@ -325,7 +331,47 @@ def sc_bound_pnorm(V, P, cfg):
     return dict(y=y)
 
 
-SCEN = {"activeset": sc_activeset, "scaling": sc_scaling, "bound-softminmax": sc_bound_softminmax,
+def sc_range_concrete(V, P, cfg):
+    """Concrete regression items (NOT a solver verdict; evidence kind `concrete-regression`): floating-point range. For data
+    whose defining formula is representable in float64 (every exp(rho x_i) is finite and their sum is not zero) the
+    aggregate is finite and inside its bounds; exact-real arithmetic cannot see an overflow of a rewritten formula."""
+    import math
+    import pymoto as pym
+    agg, x, par = cfg["agg"], np.array(cfg["x"], dtype=float), float(cfg["par"])
+    if V.symbolic:
+        from symx import npshim
+        npshim.uninstall()
+    try:
+        sig = pym.Signal("x", x.copy())
+        m = {"KS": lambda: pym.KSFunction(sig, rho=par), "SoftMinMax": lambda: pym.SoftMinMax(sig, alpha=par),
+             "PNorm": lambda: pym.PNorm(sig, p=par)}[agg]()
+        with warnings.catch_warnings():
+            warnings.simplefilter("ignore")
+            m.response()
+            y = float(m.sig_out[0].state)
+            m.sig_out[0].sensitivity = 1.0
+            m.sensitivity()
+            g = np.asarray(sig.sensitivity, dtype=float)
+    finally:
+        if V.symbolic:
+            npshim.install()
+    n = len(x)
+    if agg == "KS":
+        lo, hi = (x.max(), x.max() + math.log(n) / par) if par > 0 else (x.min() + math.log(n) / par, x.min())
+    elif agg == "SoftMinMax":
+        lo, hi = x.min(), x.max()
+    else:
+        lo, hi = (x.max(), x.max() * n ** (1 / par)) if par > 0 else (x.min() * n ** (1 / par), x.min())
+    tol = 1e-9 * max(1.0, abs(lo), abs(hi))
+    ok = bool(np.isfinite(y) and lo - tol <= y <= hi + tol)
+    okg = bool(np.all(np.isfinite(g)))
+    if P is not None:
+        P.holds("range:finite-and-within-bounds", ok, kind="concrete-regression:float-range")
+        P.holds("range:finite-sensitivity", okg, kind="concrete-regression:float-range")
+    return dict(ok=float(ok), okg=float(okg), y=(y if np.isfinite(y) else 1e300))
+
+
+SCEN = {"range-concrete": sc_range_concrete, "activeset": sc_activeset, "scaling": sc_scaling, "bound-softminmax": sc_bound_softminmax,
         "bound-ks": sc_bound_ks, "bound-pnorm": sc_bound_pnorm}
 
 
@@ -344,6 +390,10 @@ def replay(cfg, label, env, case):
     import pymoto as pym
     kind = cfg["kind"]
     V = Vals(env=env)
+    if kind == "range-concrete":
+        obs = sc_range_concrete(V, None, cfg)
+        return dict(reproduced=bool(not obs["ok"] or not obs["okg"]), detail=dict(cfg=cfg, y=obs["y"], within_bounds=obs["ok"],
+                                                                                  finite_sensitivity=obs["okg"]))
     if kind == "activeset":
         n, mode = cfg["n"], cfg["mode"]
         x = np.array([env.get("x_%d" % i, 0.0) for i in range(n)])
